@@ -887,6 +887,20 @@ fn gen_c12(tier: &str, rng: &mut Rng) -> Vec<Case> {
         } else {
             src.clone()
         };
+        // a <br> ends a line exactly like a newline character does
+        let src_html: String = if gnr.rng.chance(1, 3) {
+            let mut o = String::new();
+            for (k, ch) in src_html.chars().enumerate() {
+                if ch == '\n' && k > 0 && gnr.rng.chance(1, 3) {
+                    o.push_str("<br>");
+                } else {
+                    o.push(ch);
+                }
+            }
+            o
+        } else {
+            src_html
+        };
         let src = src; // the text content is unchanged
         let (html, prefix): (String, usize) = match wrapk {
             0 => (format!("<ul><li><pre>{}</pre></li></ul>", src_html), 2),
